@@ -123,6 +123,40 @@ Proof.
     apply IH in Hin. destruct Hin; split; [assumption|lia].
 Qed.
 
+Lemma tt_seg_at h : forall k0 m l,
+  trad_trace h k0 m l ->
+  forall j p x sg, In (EvSegment j p x sg) l -> (k0 <= j)%nat /\ x = m + Z.of_nat (j - k0).
+Proof.
+  intros k0 m l H. induction H as [| |k0 m pos seg l Ht H IH]; intros j p x sg Hin.
+  - contradiction.
+  - destruct Hin as [E|[]]. injection E as <- _ <- _. split; [lia|]. rewrite Nat.sub_diag. cbn. lia.
+  - destruct Hin as [E|[E|Hin]]; [|discriminate|].
+    + injection E as <- _ <- _. split; [lia|]. rewrite Nat.sub_diag. cbn. lia.
+    + apply IH in Hin. destruct Hin as [Hj ->]. split; [lia|]. lia.
+Qed.
+
+Lemma tt_pl_prev h : forall k0 m l,
+  trad_trace h k0 m l ->
+  forall k' s, In (EvPlaylist k' s) l ->
+  (k0 < k')%nat /\ exists p sg, In (EvSegment (k' - 1) p (m + Z.of_nat (k' - 1 - k0)) sg) l.
+Proof.
+  intros k0 m l H. induction H as [| |k0 m pos seg l Ht H IH]; intros k' s Hin.
+  - contradiction.
+  - destruct Hin as [E|[]]. discriminate.
+  - destruct Hin as [E|[E|Hin]]; [discriminate| |].
+    + injection E as <- _. split; [lia|]. exists pos, seg. left.
+      replace (S k0 - 1)%nat with k0 by lia. rewrite Nat.sub_diag. cbn. f_equal. lia.
+    + apply IH in Hin. destruct Hin as [Hk [p [sg Hin]]]. split; [lia|]. exists p, sg. right. right.
+      replace (m + Z.of_nat (k' - 1 - k0)) with (m + 1 + Z.of_nat (k' - 1 - S k0)) by lia. exact Hin.
+Qed.
+
+Lemma in_window_not_ended v pl :
+  MediaSequence pl <= v + 1 < MediaSequence pl + len (Segments pl) ->
+  Endlist pl && (v + 1 =? MediaSequence pl + len (Segments pl)) = false.
+Proof.
+  intros H. destruct (v + 1 =? MediaSequence pl + len (Segments pl)) eqn:E; [lia|apply andb_false_r].
+Qed.
+
 Lemma ll_trace_no_segment h skip : forall k l,
   ll_trace h skip k l -> forall k' pos m seg, ~ In (EvSegment k' pos m seg) l.
 Proof.
@@ -302,6 +336,7 @@ Section Run.
   Proof.
     induction rest as [|pl1 rest IH]; intros k0 cur pl0 log o l1 k pos m seg l2 Hat Hrun Hlog;
       pose proof Hrun as Hrun0; apply trad_inv in Hrun;
+      (destruct Hrun as [[_ [-> _]]|Hrun]; [destruct l1; discriminate|]);
       destruct Hrun as [[e [Hf [-> ->]]]|[[v [pos0 [seg0 [Hf [Hr [-> ->]]]]]]|[v [pos0 [seg0 [Hf [Hr Hc]]]]]]];
       try (destruct l1; discriminate).
     - (* rest = [] *)
@@ -322,17 +357,21 @@ Section Run.
         * injection Hlog as <- <- <- <- <-. exists pl0. split; [apply Hat|]. right. split; [exact Hn|].
           destruct Hat' as [Hn1 _]. rewrite Hn1.
           destruct (trad_head_nonempty _ _ _ _ _ _ _ Hrec) as [[-> Hcase]|[seg' [l3 [Hf' [Hr' ->]]]]].
-          -- destruct Hcase as [[-> Hw]|[[-> [Hw [He' Hd]]]|[-> [seg' [Hf' Hr']]]]].
-             ++ assert ((v + 1 <? MediaSequence pl1) || (MediaSequence pl1 + len (Segments pl1) <=? v + 1) = true) as ->.
+          -- destruct Hcase as [[-> Hea]|[[-> [Hw Hnea]]|[[-> [Hw [He' Hd]]]|[-> [seg' [Hf' Hr']]]]]].
+             ++ rewrite (ended_after_b _ _ Hea). auto.
+             ++ rewrite (not_ended_after_b _ _ Hnea).
+                assert ((v + 1 <? MediaSequence pl1) || (MediaSequence pl1 + len (Segments pl1) <=? v + 1) = true) as ->.
                 { destruct (v + 1 <? MediaSequence pl1) eqn:E1; [reflexivity|].
                   destruct (MediaSequence pl1 + len (Segments pl1) <=? v + 1) eqn:E2; [reflexivity|lia]. }
                 auto.
-             ++ assert ((v + 1 <? MediaSequence pl1) || (MediaSequence pl1 + len (Segments pl1) <=? v + 1) = false) as ->.
+             ++ rewrite (in_window_not_ended _ _ Hw).
+                assert ((v + 1 <? MediaSequence pl1) || (MediaSequence pl1 + len (Segments pl1) <=? v + 1) = false) as ->.
                 { destruct (v + 1 <? MediaSequence pl1) eqn:E1; [lia|].
                   destruct (MediaSequence pl1 + len (Segments pl1) <=? v + 1) eqn:E2; [lia|reflexivity]. }
                 rewrite He'. cbn [negb andb].
                 destruct (clientLiveMaxDistanceFromEnd <? MediaSequence pl1 + len (Segments pl1) - (v + 1)) eqn:E; [auto|lia].
              ++ pose proof (fill_ok_inv _ _ _ _ _ _ Hf') as [Hb [Hs [_ [_ Hd]]]].
+                rewrite in_window_not_ended by lia.
                 assert ((v + 1 <? MediaSequence pl1) || (MediaSequence pl1 + len (Segments pl1) <=? v + 1) = false) as ->.
                 { destruct (v + 1 <? MediaSequence pl1) eqn:E1; [lia|].
                   destruct (MediaSequence pl1 + len (Segments pl1) <=? v + 1) eqn:E2; [lia|reflexivity]. }
@@ -342,6 +381,7 @@ Section Run.
                   apply andb_false_r. }
                 exists seg'. split; [exact Hs|]. rewrite Hr'. auto.
           -- pose proof (fill_ok_inv _ _ _ _ _ _ Hf') as [Hb [Hs [_ [_ Hd]]]].
+             rewrite in_window_not_ended by lia.
              assert ((v + 1 <? MediaSequence pl1) || (MediaSequence pl1 + len (Segments pl1) <=? v + 1) = false) as ->.
              { destruct (v + 1 <? MediaSequence pl1) eqn:E1; [lia|].
                destruct (MediaSequence pl1 + len (Segments pl1) <=? v + 1) eqn:E2; [lia|reflexivity]. }
@@ -360,6 +400,7 @@ Section Run.
   Proof.
     induction rest as [|pl1 rest IH]; intros k cur pl log o Hrun;
       apply trad_inv in Hrun;
+      (destruct Hrun as [[_ [_ ->]]|Hrun]; [discriminate|]);
       destruct Hrun as [[e [Hf [-> ->]]]|[[v [pos0 [seg0 [Hf [Hr [-> ->]]]]]]|[v [pos0 [seg0 [Hf [Hr Hc]]]]]]];
       try discriminate;
       try (apply fill_err_inv in Hf; destruct cur; destruct Hf as [[-> _]|[-> _]]; discriminate);
@@ -374,6 +415,7 @@ Section Run.
   Proof.
     induction rest as [|pl1 rest IH]; intros k cur pl log o Hrun;
       apply trad_inv in Hrun;
+      (destruct Hrun as [[_ [-> _]]|Hrun]; [intros ? []|]);
       destruct Hrun as [[e [Hf [-> ->]]]|[[v [pos0 [seg0 [Hf [Hr [-> ->]]]]]]|[v [pos0 [seg0 [Hf [Hr Hc]]]]]]];
       try (intros ? []);
       assert (exists w, wire resolve with_skip purl (EvSegment k pos0 v seg0) = Some w) as Hw
@@ -611,6 +653,7 @@ Section Run.
     destruct Hrun as [[m [Hm [Hrm _]]]|[_ [l [-> [[Hx _]|[_ Hrun]]]]]]; [|congruence|].
     { unfold init_ok in Hi. rewrite Hm in Hi. congruence. }
     apply trad_inv in Hrun. rewrite (fill_first_vod fp fp seg segs Ht Hs) in Hrun.
+    destruct Hrun as [[Hfe _]|Hrun]; [discriminate|].
     destruct Hrun as [[e [Hf _]]|[[v [pos [seg0 [Hf [Hr0 _]]]]]|[v [pos [seg0 [Hf [Hr0 Hc]]]]]]]; try discriminate.
     - injection Hf as <- <- <-. congruence.
     - injection Hf as <- <- <-.
@@ -633,6 +676,7 @@ Section Run.
     destruct Hrun as [[m [Hm [Hrm _]]]|[_ [l [-> [[Hx _]|[_ Hrun]]]]]]; [|congruence|].
     { unfold init_ok in Hi. rewrite Hm in Hi. congruence. }
     apply trad_inv in Hrun. rewrite Hfill in Hrun.
+    destruct Hrun as [[Hfe _]|Hrun]; [discriminate|].
     destruct Hrun as [[e [Hf _]]|[[v [pos [seg0 [Hf [Hr0 _]]]]]|[v [pos [seg0 [Hf [Hr0 Hc]]]]]]]; try discriminate.
     - injection Hf as <- <- <-. congruence.
     - injection Hf as <- <- <-.
@@ -649,6 +693,7 @@ Section Run.
     destruct Hrun as [[m [Hm [Hrm _]]]|[_ [l [-> [[Hx _]|[_ Hrun]]]]]]; [|congruence|].
     { unfold init_ok in Hi. rewrite Hm in Hi. congruence. }
     apply trad_inv in Hrun. rewrite (fill_first_live_short fp fp Ht Hl) in Hrun.
+    destruct Hrun as [[Hfe _]|Hrun]; [discriminate|].
     destruct Hrun as [[e [Hf [-> ->]]]|[[v [pos [seg0 [Hf _]]]]|[v [pos [seg0 [Hf _]]]]]]; try discriminate.
     injection Hf as <-. rewrite app_nil_r. reflexivity.
   Qed.
@@ -663,6 +708,7 @@ Section Run.
     destruct Hrun as [[m [Hm [Hrm _]]]|[_ [l [-> [[Hx _]|[_ Hrun]]]]]]; [|congruence|].
     { unfold init_ok in Hi. rewrite Hm in Hi. congruence. }
     apply trad_inv in Hrun. rewrite (fill_first_vod_empty fp fp Ht Hs) in Hrun.
+    destruct Hrun as [[Hfe _]|Hrun]; [discriminate|].
     destruct Hrun as [[e [Hf [-> ->]]]|[[v [pos [seg0 [Hf _]]]]|[v [pos [seg0 [Hf _]]]]]]; try discriminate.
     injection Hf as <-. rewrite app_nil_r. reflexivity.
   Qed.
@@ -677,8 +723,8 @@ Section Run.
     intros Hll Hrun. apply run_inv in Hrun.
     destruct Hrun as [[m [Hm [Hrm [-> _]]]]|[_ [l [-> [[Hx _]|[_ Hrun]]]]]]; [|congruence|].
     - exists [], 0. split; [reflexivity|apply tt_nil].
-    - destruct (fillSegmentQueue fp None fp) as [e| |v pos seg] eqn:Hf.
-      1,2: exists l, 0; split;
+    - destruct (fillSegmentQueue fp None fp) as [e| | |v pos seg] eqn:Hf.
+      1,2,3: exists l, 0; split;
         [rewrite app_length, Nat.add_sub, firstn_all; reflexivity
         |eapply trad_shape; [apply at_poll_0|exact Hrun|intros ? ? ? Hx; rewrite Hf in Hx; discriminate]].
       exists l, v. split; [rewrite app_length, Nat.add_sub, firstn_all; reflexivity|].
@@ -733,6 +779,20 @@ Section Run.
       + eapply trad_trace_truthful; eauto.
   Qed.
 
+  Lemma ll_no_segment_events fp rest log o k pos m seg :
+    isLowLatency fp = true -> run (fp :: rest) = (log, o) -> ~ In (EvSegment k pos m seg) log.
+  Proof.
+    intros Hll Hrun Hin. apply run_inv in Hrun.
+    destruct Hrun as [[m0 [_ [_ [-> _]]]]|[_ [l [-> [[_ Hrun]|[Hx _]]]]]]; [| |congruence].
+    - destruct Hin as [E|[]]. discriminate.
+    - apply in_app_or in Hin. destruct Hin as [Hin|Hin].
+      + pose proof (prelude_no_segment fp) as Hp. rewrite Forall_forall in Hp.
+        apply Hp in Hin. discriminate.
+      + apply isLowLatency_spec in Hll. destruct Hll as [sc [ph [Hsc _]]].
+        pose proof (ll_shape _ _ _ _ _ _ _ _ Hsc (at_poll_0 fp rest) Hrun) as Ht.
+        exact (ll_trace_no_segment _ _ _ _ Ht _ _ _ _ Hin).
+  Qed.
+
   (* stop, do not jump; continue with exactly the next MSN otherwise; EOS after the last ENDLIST segment *)
   Theorem after_segment fp rest log o l1 k pos m seg l2 :
     run (fp :: rest) = (log, o) ->
@@ -767,35 +827,58 @@ Section Run.
 
   Lemma trad_eos_last h fp : forall rest k cur pl l,
     at_poll h k pl rest -> runT fp k cur pl rest = (l, OEOS) ->
-    exists l1 k' pos m seg pl',
-      l = l1 ++ [EvSegment k' pos m seg] /\ nth_error h k' = Some pl' /\
-      Endlist pl' = true /\ pos = len (Segments pl') - 1.
+    (exists l1 k' pos m seg pl',
+       l = l1 ++ [EvSegment k' pos m seg] /\ nth_error h k' = Some pl' /\
+       Endlist pl' = true /\ pos = len (Segments pl') - 1) \/
+    (exists l1 k' pos m seg pl',
+       l = l1 ++ [EvSegment k' pos m seg; EvPlaylist (S k') false] /\
+       nth_error h (S k') = Some pl' /\ ended_after m pl') \/
+    (l = [] /\ exists c, cur = Some c /\ ended_after c pl).
   Proof.
     induction rest as [|pl1 rest IH]; intros k cur pl l Hat Hrun;
       apply trad_inv in Hrun;
+      (destruct Hrun as [[Hfe [-> _]]|Hrun];
+       [right; right; split; [reflexivity|]; apply fill_end_inv in Hfe; exact Hfe|]);
       destruct Hrun as [[e [Hf [-> Hx]]]|[[v [pos0 [seg0 [Hf [Hr [_ Hx]]]]]]|[v [pos0 [seg0 [Hf [Hr Hc]]]]]]];
       try discriminate;
       try (subst e; apply fill_err_inv in Hf; destruct cur; destruct Hf as [[Hx _]|[Hx _]]; discriminate);
       destruct Hc as [[He [Hp [-> _]]]|[[_ [_ [_ Hx]]]|[_ [pl' [rest' [l' [Hrest [Hrec ->]]]]]]]];
       try discriminate;
-      try (exists [], k, pos0, v, seg0, pl; repeat split; auto; apply Hat).
+      try (left; exists [], k, pos0, v, seg0, pl; repeat split; auto; apply Hat).
     injection Hrest as <- <-.
-    destruct (IH _ _ _ _ (at_poll_next _ _ _ _ _ Hat) Hrec) as [l1 [k' [pos [m [seg [pl' [-> H]]]]]]].
-    exists (EvSegment k pos0 v seg0 :: EvPlaylist (S k) false :: l1), k', pos, m, seg, pl'.
-    split; [reflexivity|exact H].
+    pose proof (at_poll_next _ _ _ _ _ Hat) as Hat'.
+    destruct (IH _ _ _ _ Hat' Hrec) as [H|[H|[-> [c [E Hea]]]]].
+    - left. destruct H as [l1 [k' [pos [m [seg [pl' [-> H]]]]]]].
+      exists (EvSegment k pos0 v seg0 :: EvPlaylist (S k) false :: l1), k', pos, m, seg, pl'.
+      split; [reflexivity|exact H].
+    - right. left. destruct H as [l1 [k' [pos [m [seg [pl' [-> H]]]]]]].
+      exists (EvSegment k pos0 v seg0 :: EvPlaylist (S k) false :: l1), k', pos, m, seg, pl'.
+      split; [reflexivity|exact H].
+    - right. left. injection E as <-.
+      exists [], k, pos0, v, seg0, pl1. split; [reflexivity|]. split; [apply Hat'|exact Hea].
   Qed.
 
-  Theorem eos_only_after_last fp rest log o :
+  (* EOS arises only from the end of an ENDLIST playlist: its last segment was just requested from
+     it, or it shows up at the next poll after its last segment had been requested *)
+  Theorem eos_only_at_end fp rest log o :
     run (fp :: rest) = (log, o) -> o = OEOS ->
-    exists l1 k pos m seg pl,
-      log = l1 ++ [EvSegment k pos m seg] /\ nth_error (fp :: rest) k = Some pl /\
-      Endlist pl = true /\ pos = len (Segments pl) - 1.
+    (exists l1 k pos m seg pl,
+       log = l1 ++ [EvSegment k pos m seg] /\ nth_error (fp :: rest) k = Some pl /\
+       Endlist pl = true /\ pos = len (Segments pl) - 1) \/
+    (exists l1 k pos m seg pl',
+       log = l1 ++ [EvSegment k pos m seg; EvPlaylist (S k) false] /\
+       nth_error (fp :: rest) (S k) = Some pl' /\
+       Endlist pl' = true /\ m = MediaSequence pl' + len (Segments pl') - 1).
   Proof.
     intros Hrun ->. apply run_inv in Hrun.
     destruct Hrun as [[m0 [_ [_ [_ Hx]]]]|[_ [l [-> [[Hll Hrun]|[_ Hrun]]]]]]; [discriminate| |].
     - exfalso. eapply ll_never_eos; exact Hrun.
-    - destruct (trad_eos_last _ _ _ _ _ _ _ (at_poll_0 fp rest) Hrun) as [l1 [k' [pos [m [seg [pl' [-> H]]]]]]].
-      exists (prelude fp ++ l1), k', pos, m, seg, pl'. rewrite <- app_assoc. split; [reflexivity|exact H].
+    - destruct (trad_eos_last _ _ _ _ _ _ _ (at_poll_0 fp rest) Hrun) as [H|[H|[_ [c [E _]]]]]; [| |discriminate].
+      + left. destruct H as [l1 [k' [pos [m [seg [pl' [-> H]]]]]]].
+        exists (prelude fp ++ l1), k', pos, m, seg, pl'. rewrite <- app_assoc. split; [reflexivity|exact H].
+      + right. destruct H as [l1 [k' [pos [m [seg [pl' [-> [Hn [He Hm]]]]]]]]].
+        exists (prelude fp ++ l1), k', pos, m, seg, pl'. rewrite <- app_assoc.
+        split; [reflexivity|]. split; [exact Hn|]. split; [exact He|lia].
   Qed.
 
   (* ---------- low-latency mode ---------- *)
@@ -844,8 +927,8 @@ Section Run.
     - exfalso.
       destruct (app_split_pred is_hint (prelude fp) l l1 (EvHint k ph) l2 (prelude_no_hint fp) eq_refl Hlog) as [l1' [-> ->]].
       assert (exists m, trad_trace (fp :: rest) 0 m (l1' ++ EvHint k ph :: l2)) as [m Ht].
-      { destruct (fillSegmentQueue fp None fp) as [e| |v pos seg] eqn:Hf.
-        1,2: exists 0; eapply trad_shape; [apply at_poll_0|exact Hrun|intros ? ? ? Hx; rewrite Hf in Hx; discriminate].
+      { destruct (fillSegmentQueue fp None fp) as [e| | |v pos seg] eqn:Hf.
+        1,2,3: exists 0; eapply trad_shape; [apply at_poll_0|exact Hrun|intros ? ? ? Hx; rewrite Hf in Hx; discriminate].
         exists v. eapply trad_shape; [apply at_poll_0|exact Hrun|].
         intros ? ? ? Hx. rewrite Hf in Hx. injection Hx as <- _ _. reflexivity. }
       assert (In (EvHint k ph) (l1' ++ EvHint k ph :: l2)) as Hin
